@@ -131,18 +131,19 @@ def answer (line : String) : String :=
     | _, _, _ => "bad-op"
   | "csdebug" :: rest =>
     -- the real `format!("{:?}", cs.pinned())`: top-level fields (name:length), names checked against the generated
-    -- order list for this number of challenges
-    match (C01.Parse.kv rest "nch").bind parseNat?, (C01.Parse.kv rest "cs").bind hexBytes? with
-    | some nch, some bs =>
+    -- order list for this number of challenges and these advice phases
+    match (C01.Parse.kv rest "nch").bind parseNat?, (C01.Parse.kv rest "ap").bind (listOf? "," parseNat?),
+          (C01.Parse.kv rest "cs").bind hexBytes? with
+    | some nch, some ap, some bs =>
       match splitDebugStruct bs with
       | none => "unparsed"
       | some (name, fields) =>
         let str := fun (l : List Nat) => String.ofList (l.map Char.ofNat)
         let names := fields.map fun f => str f.1
         let body := ",".intercalate (fields.map fun f => s!"{str f.1}:{f.2}")
-        if str name = Gen.csDebugName ∧ names = csDebugFieldNames nch then s!"{str name} {body}"
-        else s!"FIELD-ORDER-MISMATCH model={Gen.csDebugName} {csDebugFieldNames nch} string={str name} {names}"
-    | _, _ => "bad-op"
+        if str name = Gen.csDebugName ∧ names = csDebugFieldNames (showPhaseFields nch ap) then s!"{str name} {body}"
+        else s!"FIELD-ORDER-MISMATCH model={Gen.csDebugName} {csDebugFieldNames (showPhaseFields nch ap)} string={str name} {names}"
+    | _, _, _ => "bad-op"
   | "vkinput" :: rest =>
     match (C01.Parse.kv rest "k").bind parseNat?,
           (C01.Parse.kv rest "fixed").bind (listOf? "," pointOfCoords?),
